@@ -128,8 +128,9 @@ func TestVerifC18(t *testing.T) {
 	fields := []string{"login_destination", "user", "username", "client_id", "redirect_uri", "state", "nonce", "token", "port", "OTP",
 		"index", "name", "action", "duration", "scope", "response_type", "code", "error", "password"}
 	canary := 0
+	cur := env // the deployment the probes go to
 	probe := func(route, method, field, payload, credName string, q verifReq) {
-		resp := env.Do(q.Build())
+		resp := cur.Do(q.Build())
 		cs := c18Case{Route: route, Method: method, Field: field, Payload: payload, Cred: credName, Status: resp.Code}
 		ct := resp.Header.Get("Content-Type")
 		isHTML := strings.Contains(ct, "html") || (ct == "" && bytes.Contains(resp.Body, []byte("<")))
@@ -197,6 +198,21 @@ func TestVerifC18(t *testing.T) {
 					}
 				}
 			}
+			// absolute-form request target with markup characters in the host (net/url accepts them there and
+			// URL.String() emits the host verbatim); pages that echo the request URL must keep it inert
+			canary++
+			for hi, hostile := range []string{`"><vcanary%d>`, `'><vcanary%d>`, `"vcanary%d="1`, `x"><vcanary%d>.example.com`} {
+				h := "keymaster.verif.test" + fmt.Sprintf(hostile, canary)
+				for _, suffix := range []string{"", "?x=1", "?response_type=code&client_id=client-a&scope=openid&redirect_uri=https%3A%2F%2Fa.example.com%2Fcb"} {
+					func() {
+						defer func() { recover() }() // a target the request constructor refuses cannot reach the server either
+						q := verifReq{Method: "GET", Path: path + suffix, Host: h, Header: map[string]string{"Accept": "text/html"}, Cookies: cr.ck}
+						probe(path, "GET", "<absolute-form-host>", h, cr.name, q)
+						rep.Count("absolute_form_host_probes", 1)
+					}()
+				}
+				_ = hi
+			}
 			// raw (unencoded) query and path suffix
 			canary++
 			for _, pl := range c18Payloads(canary) {
@@ -209,6 +225,40 @@ func TestVerifC18(t *testing.T) {
 				}
 			}
 		}
+	}
+	// ---- a deployment with federated login enabled: its login page carries an extra form (and whatever fields that form
+	// repeats); the destination payloads again, on the routes that render the login page
+	if fenv, err := verifNewEnv(verifStateOpts{Name: "c18-federated", AllowedCerts: []string{"U2F"}, AllowedWebUI: []string{"password"},
+		Oauth2IdPHost: "idp.verif.test", EnableTOTP: true, ExtraTop: oidc}); err != nil {
+		rep.Inconc("federated-login deployment: %v", err)
+	} else {
+		fenv.SetPasswordChecker(verifPWFunc(func(u string, p []byte) (bool, error) { return string(p) == "pw" && u != "", nil }))
+		cur = fenv
+		pls := c18Payloads(600001)
+		for _, path := range []string{"/api/v0/login", "/", "/profile/", "/idp/oauth2/authorize", "/showAuthToken", "/public/loginForm"} {
+			for pi := 0; pi < 2*len(pls); pi++ {
+				pl := pls[pi%len(pls)]
+				if pi >= len(pls) {
+					pl = "/profile/?x=" + pl
+				}
+				for _, method := range []string{"GET", "POST"} {
+					base := url.Values{"username": {"nobody"}, "password": {"wrong"}, "login_destination": {pl}}
+					q := verifReq{Method: method, Header: map[string]string{"Accept": "text/html"}}
+					if method == "GET" {
+						q.Path = path + "?" + base.Encode()
+					} else {
+						q.Path, q.Form = path, base
+					}
+					probe(path+"(federated login enabled)", method, "login_destination", pl, "none", q)
+					rep.Count("federated_deployment_probes", 1)
+				}
+			}
+			for _, pl := range pls {
+				raw := strings.NewReplacer(" ", "%20", "\t", "%09", "#", "%23").Replace(pl)
+				probe(path+"(federated login enabled)", "GET", "<raw-query>", pl, "none", verifReq{Method: "GET", Path: path + "?x=" + raw, Header: map[string]string{"Accept": "text/html"}})
+			}
+		}
+		cur = env
 	}
 	// ---- successful login with a destination, webui needing a second factor: the 2FA page embeds the destination
 	env.SetAllowedWebUI([]string{"U2F"})
@@ -275,5 +325,7 @@ func TestVerifC18(t *testing.T) {
 	rep.Floor("html_pages_parsed", 300)
 	rep.Floor("html_pages_reflecting_canary", 20)
 	rep.Floor("hostile_username_sessions", 3)
+	rep.Floor("absolute_form_host_probes", 100)
+	rep.Floor("federated_deployment_probes", 200)
 	rep.Extra["routes"] = len(env.Routes)
 }
